@@ -457,8 +457,12 @@ func formatHour(t time.Time, marker *variableMarker, hour12 bool) (string, error
 	}
 
 	h := t.Hour()
-	if hour12 && h > 12 {
-		h -= 12
+	if hour12 {
+		// 12-hour clock: 12, 1..11 (midnight and noon are 12)
+		h %= 12
+		if h == 0 {
+			h = 12
+		}
 	}
 	return formatIntegerComponent(h, marker)
 }
